@@ -73,8 +73,30 @@ func roundTrip(r *rand.Rand, zero any, dir string, slack []int, tz string) M {
 			res = M{"t": "panic", "msg": pm}
 		}
 		rec["dec3"] = res
+		// ... and into a struct that already holds ANOTHER decoded message of the type (a receive loop that reuses its
+		// message struct): what is decoded is a function of the bytes alone
+		rec["dec4"] = M{"t": "none"}
+		if p, pm := guard(func() {
+			other := reflect.New(t).Elem()
+			walk(other, func(name string, f reflect.Value) { genField(r, f, false) })
+			ob, err := codec.Marshal(other.Interface())
+			if err != nil {
+				return
+			}
+			out := reflect.New(t)
+			if err := codec.Unmarshal(ob, out.Interface()); err != nil {
+				return
+			}
+			if err := codec.Unmarshal(bytes, out.Interface()); err != nil {
+				rec["dec4"] = M{"t": "err"}
+				return
+			}
+			rec["dec4"] = M{"t": "ok", "v": projMsg(out.Elem())}
+		}); p {
+			rec["dec4"] = M{"t": "panic", "msg": pm}
+		}
 	} else {
-		rec["dec"], rec["dec2"], rec["dec3"], rec["flipped"] = M{"t": "none"}, M{"t": "none"}, M{"t": "none"}, []int{}
+		rec["dec"], rec["dec2"], rec["dec3"], rec["dec4"], rec["flipped"] = M{"t": "none"}, M{"t": "none"}, M{"t": "none"}, M{"t": "none"}, []int{}
 	}
 	return rec
 }
